@@ -50,7 +50,13 @@ def gen_spec(rng):
             if any((x['kind'], x['source'], x['target']) == (r['kind'], r['source'], r['target']) for x in rels):
                 continue
             rels.append(r)
-        ets.append({'name': 't%d' % t, 'props': props, 'rels': rels, 'names': names})
+        later = []
+        if len(props) >= 2 and rng.random() < 0.5:
+            a, b = rng.sample(props, 2)
+            kind = rng.choice(['name', 'description', 'container'])
+            if not any((x['kind'], x['source'], x['target']) == (kind, a['name'], b['name']) for x in rels):
+                later.append({'kind': kind, 'source': a['name'], 'target': b['name']})
+        ets.append({'name': 't%d' % t, 'props': props, 'rels': rels, 'names': names, 'later': later})
     events = []
     for _ in range(rng.randint(0, 7)):
         et = rng.choice(ets)
@@ -63,7 +69,7 @@ def gen_spec(rng):
     return {'ets': ets, 'events': events}
 
 
-def build_ontology(spec):
+def build_ontology(spec, extra=False):
     from edxml.ontology import Ontology
     o = Ontology()
     for ot in OTYPES:
@@ -90,6 +96,11 @@ def build_ontology(spec):
                 et.create_relation('other', r['source'], r['target'], 'd', 'p', None, None, r['confidence'])
             else:
                 et.create_relation(kind, r['source'], r['target'])
+        if extra:
+            for r in e.get('later', []):
+                et.create_relation(r['kind'], r['source'], r['target'])
+            if e.get('later'):
+                et.set_version(2)
     return o
 
 
@@ -106,7 +117,7 @@ def f2q(x):
     return [str(q.numerator), str(q.denominator)]
 
 
-def run(spec, order, min_conf, max_depth):
+def run(spec, order, min_conf, max_depth, upgrade_at=None):
     from edxml.miner.knowledge import KnowledgeBase
     from edxml.miner import Miner
     from edxml.miner.node import EventObjectNode
@@ -114,7 +125,12 @@ def run(spec, order, min_conf, max_depth):
     try:
         o = build_ontology(spec)
         o.validate()
+        if upgrade_at is not None:
+            o2 = build_ontology(spec, extra=True)
+            o2.validate()
+            build_ontology(spec).update(o2)
     except Exception:
+        # the generator produced something that is not a valid ontology (or upgrade) by itself: not a case
         return {'skipped': True}
     kb = KnowledgeBase()
     m = Miner(kb)
@@ -123,7 +139,10 @@ def run(spec, order, min_conf, max_depth):
     old = signal.signal(signal.SIGALRM, _alarm)
     signal.alarm(WATCHDOG_S)
     try:
-        for ev in events:
+        for k, ev in enumerate(events):
+            if upgrade_at is not None and k == upgrade_at:
+                # the ontology is upgraded in mid stream: event types gain universals relations
+                m.add_ontology(build_ontology(spec, extra=True))
             m.add_event(gen.build_event(ev, 'plain'))
         m.mine(None, min_conf, max_depth)
         outcome = 'ok'
@@ -228,6 +247,8 @@ class C20(Property):
             order = list(range(len(spec['events'])))
             rng.shuffle(order)
             c = {'spec': spec, 'order': order, 'min_conf': rng.choice(MIN_CONF), 'max_depth': rng.choice(MAX_DEPTH)}
+            if order and rng.random() < 0.5:
+                c['upgrade_at'] = rng.randrange(len(order))
             if i % 10 == 9:
                 # cases of their own for the known finding (titles after a JSON round trip), so that it cannot hide anything
                 c['title_probe'] = True
@@ -237,7 +258,7 @@ class C20(Property):
         return ['jsonDropsNamingPriority'] if case.get('title_probe') else []
 
     def observe(self, case):
-        r = run(case['spec'], case['order'], case['min_conf'], case['max_depth'])
+        r = run(case['spec'], case['order'], case['min_conf'], case['max_depth'], case.get('upgrade_at'))
         if r.get('skipped') or r.get('outcome') != 'ok':
             return r
         # what is compared with the model: the arithmetic on the real values (rounded) and the universals
@@ -249,7 +270,7 @@ class C20(Property):
         return True
 
     def requests(self, case):
-        r = run(case['spec'], case['order'], case['min_conf'], case['max_depth'])
+        r = run(case['spec'], case['order'], case['min_conf'], case['max_depth'], case.get('upgrade_at'))
         if r.get('skipped') or r.get('outcome') != 'ok':
             return []
         rels = []
@@ -257,12 +278,17 @@ class C20(Property):
         evs = []
         # universals are mined per event with the relations of its own event type: one request per event type
         reqs = []
+        up = case.get('upgrade_at')
+        ordered = [case['spec']['events'][i] for i in case['order']]
         for e in case['spec']['ets']:
             ptypes = {p['name']: p['ot'] for p in e['props']}
-            rels = [{'kind': x['kind'], 'source': x['source'], 'target': x['target'], 'sourceType': ptypes[x['source']],
-                     'targetType': ptypes[x['target']]} for x in e['rels'] if x['kind'] in ('name', 'description', 'container')]
-            evs = [ev for ev in case['spec']['events'] if ev['type'] == e['name']]
-            reqs.append({'op': 'miner', 'noisy': [], 'taint': [], 'rels': rels, 'events': evs})
+            for phase in (0, 1):
+                src = e['rels'] + (e.get('later', []) if phase == 1 else [])
+                rels = [{'kind': x['kind'], 'source': x['source'], 'target': x['target'], 'sourceType': ptypes[x['source']],
+                         'targetType': ptypes[x['target']]} for x in src if x['kind'] in ('name', 'description', 'container')]
+                evs = [ev for k, ev in enumerate(ordered) if ev['type'] == e['name'] and
+                       ((up is not None and k >= up) if phase == 1 else (up is None or k < up))]
+                reqs.append({'op': 'miner', 'noisy': [], 'taint': [], 'rels': rels, 'events': evs})
         reqs.append({'op': 'miner', 'noisy': [c[0] for c in r['noisy_checks']], 'taint': [], 'rels': [], 'events': []})
         return reqs
 
@@ -331,13 +357,17 @@ class C20(Property):
         # universals: exactly the pairs present in the events
         want = {'names': set(), 'descriptions': set(), 'containers': set()}
         key = {'name': 'names', 'description': 'descriptions', 'container': 'containers'}
+        up = case.get('upgrade_at')
+        ordered = [case['spec']['events'][i] for i in case['order']]
         for e in case['spec']['ets']:
             ptypes = {p['name']: p['ot'] for p in e['props']}
-            for x in e['rels']:
+            for x in e['rels'] + [dict(y, later=True) for y in e.get('later', [])]:
                 if x['kind'] not in key:
                     continue
-                for ev in case['spec']['events']:
+                for k, ev in enumerate(ordered):
                     if ev['type'] != e['name']:
+                        continue
+                    if x.get('later') and (up is None or k < up):
                         continue
                     d = {k: v for k, v in ev['props']}
                     for t in d.get(x['target'], []):
